@@ -114,3 +114,17 @@ def ext_name(e, mod, f=None, types=None):
     else:
         base = imp[1] + "." + imp[2]
     return ".".join([base] + list(reversed(parts)))
+
+
+def lift(v, limit=64):
+    """Lift Phi nodes out of sequences: [Phi(c,a,b), x] -> Phi(c, [a,x], [b,x])."""
+    if isinstance(v, Phi):
+        return Phi(v.cond, lift(v.a, limit), lift(v.b, limit))
+    if isinstance(v, Seq):
+        for i, x in enumerate(v.items):
+            if isinstance(x, Phi):
+                ck_ = key(x.cond)
+                ia = [y.a if isinstance(y, Phi) and key(y.cond) == ck_ else y for y in v.items]
+                ib = [y.b if isinstance(y, Phi) and key(y.cond) == ck_ else y for y in v.items]
+                return Phi(x.cond, lift(Seq(v.kind, ia), limit), lift(Seq(v.kind, ib), limit))
+    return v
